@@ -417,6 +417,7 @@ pub fn run(a: &Args) {
         if VirtAddr::zero().as_u64() != 0 || PhysAddr::zero().as_u64() != 0 {
             r.viol("C03|zero|nonzero", "zero", "");
         }
+        guarded(&mut r, "C03|const-context|unexpected-panic", || "constctx".into(), |r| crate::constctx::addrs(r, "C03"));
         r.sample("ctor V 0x800000000000".into());
         r.sample("gate 0xffff7fff00000000 0x8000".into());
         r.emit();
